@@ -1,4 +1,5 @@
 import Evl.Model.Encrypt
+import Evl.Lemmas.EncryptTree
 /-!
 # C09 — encrypt.Filter leaks no classified plaintext (secure default, fails closed)
 
@@ -286,5 +287,64 @@ theorem fail_closed (k : Keys) (ek : Option EventKeys) (fails : Bool) (ov : Over
   split
   · simp
   · simp [filterFields_none_of_mem k ek ov f hone fs hf]
+
+
+/-! ### nested payloads (M7t `EncryptTree`) -/
+section Tree
+open Evl.EncryptTree
+
+/-- **No leak at any depth.**  For every payload tree — structs, pointers, interface-held values,
+slices, slices of slices, untagged maps, nested arbitrarily — that is *guarded* (every string /
+[]byte in it is reached addressably and under a tag whose action is not `keep`; which tags those
+are is `tag_secure` / `action_keep_iff`), whatever Process forwards contains nothing readable:
+every value was redacted, encrypted or HMAC-ed.  Unclassified map values need no tag: they are
+always redacted. -/
+theorem tree_noleak (c : Ctx) (ewi : Bool) (v v' : V) (g : guardedPayload c v = true)
+    (h : process c ewi v = .filtered v') : plains v' = [] :=
+  filtPayload_clean c v v' (process_filtered h) g
+
+/-- fail closed on trees: a step that fails anywhere in the tree makes Process fail (nothing is
+forwarded half filtered) — `process` forwards only what `filtPayload` returned as a whole -/
+theorem tree_fail_closed (c : Ctx) (ewi : Bool) (v : V) (h : filtPayload c v = none)
+    (hops : ((effOps c.ov).all (· = .none)) = false) : process c ewi v = .error := by
+  unfold process
+  simp only [hops, Bool.false_eq_true, if_false]
+  split
+  · rfl
+  · split
+    · rfl
+    · simp [h]
+
+def tagBytes (s : String) : Bytes := s.toUTF8.toList.map (·.toNat)
+
+/-- a nested payload: secret string, pointer to a struct, slice of structs, untagged map with a struct
+value, slice of slices of structs -/
+def demoTree : V :=
+  .ptr (.struct
+    (.cons (.field true (some sSecret)) (.leaf (.plain 1))
+    (.cons (.field true none) (.ptr (.struct (.cons (.field true (some sSensitive)) (.leaf (.plain 2)) .nil)))
+    (.cons (.field true none) (.slice (.cons .elem (.struct (.cons (.field true (some sSecret)) (.leaf (.plain 3)) .nil)) .nil))
+    (.cons (.field true none) (.map (.cons (.key 1) (.leaf (.plain 4))
+                                    (.cons (.key 2) (.struct (.cons (.field true (some sSensitive)) (.leaf (.plain 5)) .nil)) .nil)))
+    (.cons (.field true none) (.slice (.cons .elem (.slice (.cons .elem (.struct (.cons (.field true (some sSecret)) (.leaf (.plain 6)) .nil)) .nil)) .nil))
+     .nil))))))
+
+def demoCtx : Ctx := { k := { wrapper := some 1, salt := some 1, info := some 1 }, ek := none, ov := [] }
+
+/-- non-vacuity: the premises of `tree_noleak` hold of a concrete nested payload, and it is filtered -/
+example : guardedPayload demoCtx demoTree = true := by decide
+example : plains demoTree = [1, 2, 3, 4, 5, 6] := by decide
+example : ∃ v', process demoCtx false demoTree = .filtered v' ∧ plains v' = [] := by
+  refine ⟨_, rfl, ?_⟩
+  decide
+
+/-- the known finding F6c in the tree model: the same struct passed BY VALUE is not guarded, and its
+secret survives (the implementation agrees: `enctree` correspondence) -/
+example : guardedPayload demoCtx (.struct (.cons (.field true (some sSecret)) (.leaf (.plain 1)) .nil)) = false := by decide
+example : ∃ v', process demoCtx false (.struct (.cons (.field true (some sSecret)) (.leaf (.plain 1)) .nil)) = .filtered v' ∧ plains v' = [1] := by
+  refine ⟨_, rfl, ?_⟩
+  decide
+
+end Tree
 
 end Evl.C09
